@@ -254,12 +254,18 @@ pub fn run(ctx: &Ctx) -> i32 {
             cases.push((K, T));
         }
     }
+    // one block whose intermediate-symbol slab exceeds 16 MiB (thresholds on the slab size), data seed chosen
+    // so that operand A is the constant 0xFF fill (kind 2): structured, non-zero symbols
+    cases.push((300, 65504));
     par_for(cases.len(), |i| {
         if ctx.too_many_violations() {
             return;
         }
         let (K, T) = cases[i];
-        let seed = splitmix(&mut (ctx.seed() ^ (i as u64) << 24 ^ 0x0909));
+        let mut seed = splitmix(&mut (ctx.seed() ^ (i as u64) << 24 ^ 0x0909));
+        if (K, T) == (300, 65504) {
+            seed = (seed & !3) | 2;
+        }
         run_case(ctx, &gf, K, T, seed, i as u64, &rel);
         ctx.eval(1);
         if i % 97 == 0 {
